@@ -278,7 +278,10 @@ def replay_history(task):
             vin = copy.deepcopy(v)
             k, r = drive.call_raw(target, vin)
             out = _ob(k, r)
-            flags["inputSame"] = codec.norm_real(vin) == codec.norm_real(v)
+            try:
+                flags["inputSame"] = codec.norm_real(vin) == codec.norm_real(v)
+            except ValueError:      # the caller's value now holds objects that are not JSON
+                flags["inputSame"] = False
             snap1 = drive.deep_snapshot(objs.values())
             texts1 = _texts(target)
             flags["snapSame"] = snap0 == snap1
@@ -360,7 +363,10 @@ def sweep_state(st):
             break       # already changed: stop before a growing tree makes everything slow
         vin = copy.deepcopy(v)
         k1, r1 = drive.call_raw(el, vin)
-        if codec.norm_real(vin) != codec.norm_real(v):
+        try:
+            if codec.norm_real(vin) != codec.norm_real(v):
+                input_same = False
+        except ValueError:          # the caller's value now holds objects that are not JSON
             input_same = False
         k2, r2 = drive.call(el, v)
         if k1 != k2:
@@ -403,7 +409,12 @@ NONE = {"kind": "none", "out": None}
 def _o(o):
     if o is None or o["kind"] == "none":
         return '[kind |-> "none", out |-> [k |-> "np"]]'
-    return obs_to_tla(o)
+    try:
+        return obs_to_tla(o)
+    except (ValueError, TypeError):
+        # a result outside the result vocabulary (e.g. a member whose name is not a string):
+        # it is an outcome all the same, and equal to no outcome of the specification
+        return '[kind |-> "other:result-outside-the-vocabulary", out |-> [k |-> "np"]]'
 
 
 def run(pid, tier, replay_file=None):
